@@ -22,7 +22,8 @@ composition (`Model/Translate.lean`, last section of this file):
 `translate_no_panic`, `detect_is_decision_list`, `detect_then_explicit`,
 `detect_then_explicit_msgpack`, `detect_then_explicit_json_partial`,
 `detect_slice_eq_reader_msgpack`, `detect_slice_eq_reader_json_partial`,
-`detect_reads_first_doc_only`, `detected_translatable_same_format`.
+`detect_reads_first_doc_only`, `detect_msgpack_trial_reads_enough`,
+`detected_translatable_same_format`.
 
 The handle theorems quantify over every source (data, read schedule, optional
 persistent fault) and every program — a list of `borrow`, `read n`, `prefix n`
@@ -1380,6 +1381,26 @@ theorem detect_reads_first_doc_only (E : Ext) (s : Source) (hnf : s.failAt = non
             simp only [htn, Bool.false_eq_true, ↓reduceIte] at hle
             omega
 
+/-- The demand of a matching MessagePack trial is sufficient: the decoder's
+answer is a function of the bytes it captured — whatever follows the first
+value in the stream (any bytes, or nothing), it reads the same value from those
+bytes and leaves the continuation untouched (`decodeG_local`).  (The converse —
+on every shorter prefix the decoder runs out of input — and both statements for
+the JSON trial are not proved; they are what the `trialextent` correspondence
+samples, on every prefix of fixed inputs.) -/
+theorem detect_msgpack_trial_reads_enough (bs : List Nat) (v : Xt.Msgpack.MVal) (rest : List Nat)
+    (h : mpDecode bs = .ok (v, rest)) :
+    rest.length < bs.length ∧
+    ∀ y, mpDecode (bs.take (bs.length - rest.length) ++ y) = .ok (v, y) := by
+  obtain ⟨used, e, g⟩ := Xt.Msgpack.decodeG_local true Xt.Msgpack.depthLimit bs v rest h
+  refine ⟨Xt.Msgpack.decodeG_lt true Xt.Msgpack.depthLimit bs v rest h, ?_⟩
+  intro y
+  subst e
+  have : (used ++ rest).length - rest.length = used.length := by simp
+  rw [this, List.take_left']
+  · exact g y
+  · rfl
+
 /-- **Detection of JSON and MessagePack does not depend on the supply mode.**
 For every behaviour of the YAML / TOML parsers, every two inputs with the same
 bytes and no source fault (a slice, readers with any read schedules):
@@ -1587,6 +1608,7 @@ end TranslateComposition
 #print axioms detect_slice_eq_reader_json_partial
 #print axioms detect_slice_ne_reader_json_counterexample
 #print axioms detect_reads_first_doc_only
+#print axioms detect_msgpack_trial_reads_enough
 #print axioms detected_translatable_same_format
 
 end Xt.Props.C09
